@@ -184,6 +184,7 @@ theorem isNaN_special (x : U128) (h : (decode (bitsOf x)).isNaN = true) :
 
 /-! ## 2. Unary routines -/
 
+/-- **`bid128_sqrt`**, NaN operand (any rounding mode) -/
 theorem sqrt_nan (x : U128) (m : RoundingMode) (f : UInt32) (h : (decode (bitsOf x)).isNaN = true) :
     bid128_sqrt x m f = .ok (qnanU x, if (decode (bitsOf x)).isSNaN then f ||| 1 else f) := by
   unfold bid128_sqrt
@@ -551,6 +552,7 @@ def nanFlags (f : UInt32) (ds : List Datum) : UInt32 := if ds.any Datum.isSNaN t
 def fmaPick (x y z : U128) : U128 :=
   if (decode (bitsOf y)).isNaN then qnanU y else if (decode (bitsOf z)).isNaN then qnanU z else qnanU x
 
+/-- **`bid128_ext_fma`**: some operand a NaN; the four midpoint/inexact indicators come back `false` -/
 theorem ext_fma_nan (p1 p2 p3 p4 : Bool) (x y z : U128) (m : RoundingMode) (f : UInt32)
     (h : ((decode (bitsOf x)).isNaN || (decode (bitsOf y)).isNaN || (decode (bitsOf z)).isNaN) = true) :
     bid128_ext_fma p1 p2 p3 p4 x y z m f = .ok (fmaPick x y z, false, false, false, false,
@@ -1244,7 +1246,9 @@ theorem qnanU_canonical (x : U128) (h : (decode (bitsOf x)).isNaN = true) :
 example : bid128_add ⟨5, 0x7c00000000000000⟩ ⟨7, 0x7e00000000000000⟩ .NearestEven 0
     = .ok (⟨5, 0x7c00000000000000⟩, 1) := by decide +kernel
 example : bid128_add ⟨5, 0x7c00000000000000⟩ ⟨7, 0x7e00000000000000⟩ .NearestEven 0
-    = .ok (pick2 ⟨5, 0x7c00000000000000⟩ ⟨7, 0x7e00000000000000⟩, _) := add_nan _ _ _ _ (by decide +kernel)
+    = .ok (pick2 ⟨5, 0x7c00000000000000⟩ ⟨7, 0x7e00000000000000⟩,
+        nanFlags 0 [decode (bitsOf ⟨5, 0x7c00000000000000⟩), decode (bitsOf ⟨7, 0x7e00000000000000⟩)]) :=
+  add_nan _ _ _ _ (by decide +kernel)
 -- x − (−qNaN(7)): the NaN keeps its sign
 example : bid128_sub ⟨1, 0x3040000000000000⟩ ⟨7, 0xfc00000000000000⟩ .NearestEven 0x20
     = .ok (⟨7, 0xfc00000000000000⟩, 0x20) := by decide +kernel
